@@ -11,6 +11,7 @@ package main
 import (
 	"encoding/binary"
 	"fmt"
+	"io"
 	"math/bits"
 
 	"github.com/tuneinsight/lattigo/v6/ring"
@@ -21,7 +22,7 @@ import (
 )
 
 type refUniform struct {
-	src  *scriptPRNG
+	src  io.Reader
 	buf  [1024]byte
 	ptr  int
 	used bool
@@ -104,7 +105,7 @@ func uniformAnswersScenario(ch chainT) engine.Scenario {
 		for i := 0; i < k; i++ {
 			pre = append(pre, be64(rej|hi)...)
 		}
-		pre = append(pre, be64(acc|hi&^0)...)
+		pre = append(pre, be64(acc|hi)...)
 		st := &stream{prefix: pre, bgSeed: 17}
 
 		r := ringOf(mod)
@@ -114,32 +115,38 @@ func uniformAnswersScenario(ch chainT) engine.Scenario {
 		if level != L {
 			smp = s.AtLevel(level)
 		}
-		pol := r.AtLevel(level).NewPoly()
-		smp.Read(pol)
 		model := &refUniform{src: envM}
-		want := model.sample(mod, level)
-		for i, q := range mod[:level+1] {
-			for j := 0; j < N; j++ {
-				if pol.Coeffs[i][j] >= q {
-					c.Fail("C17/uniform/Read/out-of-range", "%s level %d coefficient %d = %d >= q=%d", ch.name, i, j, pol.Coeffs[i][j], q)
-					return
+		// enough consecutive reads to walk past the window and past the first refill of the 1024-byte buffer
+		reads := 1 + (pos+k+140)/((level+1)*N)
+		var pol ring.Poly
+		for rd := 0; rd < reads; rd++ {
+			pol = r.AtLevel(level).NewPoly()
+			smp.Read(pol)
+			want := model.sample(mod, level)
+			for i, q := range mod[:level+1] {
+				for j := 0; j < N; j++ {
+					if pol.Coeffs[i][j] >= q {
+						c.Fail("C17/uniform/Read/out-of-range", "%s level %d coefficient %d = %d >= q=%d", ch.name, i, j, pol.Coeffs[i][j], q)
+						return
+					}
 				}
 			}
+			if ok, why := rowsEqual(pol.Coeffs, want, level); !ok {
+				c.Fail("C17/uniform/Read/differs-from-specification-sampler", "%s level=%d window@%d k=%d read %d: %s", ch.name, level, pos, k, rd, why)
+				return
+			}
+			if envA.off != envM.off {
+				c.Fail("C17/uniform/Read/bytes-consumed", "sampler consumed %d bytes of the source, specification %d", envA.off, envM.off)
+				return
+			}
+			c.State("uniform", envA.off, model.ptr)
 		}
-		if ok, why := rowsEqual(pol.Coeffs, want, level); !ok {
-			c.Fail("C17/uniform/Read/differs-from-specification-sampler", "%s level=%d window@%d k=%d: %s", ch.name, level, pos, k, why)
-			return
-		}
-		if envA.off != envM.off {
-			c.Fail("C17/uniform/Read/bytes-consumed", "sampler consumed %d bytes of the source, specification %d", envA.off, envM.off)
-			return
-		}
+		c.Count(reads)
 		c.Cover("uniform-answers", ch.name)
 		c.Cover("uniform-rejections", fmt.Sprint(k))
 		if envA.off > 1024 {
 			c.Cover("uniform-refill", "second-buffer")
 		}
-		c.State("uniform", envA.off, model.ptr)
 		c.Outcome(name, hashPoly(pol, level))
 	}}
 }
